@@ -70,8 +70,8 @@ def run(ctx):
                             "and requirement evaluation followed by format_constraint_evaluation of the collected string under random truth assignments vs the model (part level). "
                             "Oracle: presence, shape (keys from the source, only U/O/X/brackets), and the Boolean value under ALL truth assignments vs an independent Python reading; "
                             "non-trivial = distinct valid (expression, assignment) pairs that collect an expression")
-    for (t, rho), (tag, v) in list(zip(cases, raws))[6000:6200]:
-        if tag == "ok" and getattr(v, "format_constraints_expression", None):
+    for (t, rho), (tag, v) in list(zip(cases, raws))[::97]:
+        if tag == "ok" and getattr(v, "format_constraints_expression", None) and exprs.size(t) >= 3:
             ctx.sample({"expression": exprs.show(t), "rc": rho, "collected": v.format_constraints_expression})
     return finish(ctx, assumptions=["interpretation S1 of the direct reading (DESIGN.md section 7)",
                                     "the string-level builder equals `render` of the token-level builder: established by correspondence (character by character), not by a theorem"])
